@@ -95,15 +95,18 @@ def run_c18(rep, tier, seed):
                 continue
             n, u, v = comps(b.n), comps(b.u), comps(b.v)
             d = None
+            # single-precision input gives a single-precision basis
+            tol = 1e-6 if any(str(getattr(cc, "dtype", "")) == "float32" for cc in common.comps_of(b.n).values()) else 1e-12
             for name, vec in (("n", n), ("u", u), ("v", v)):
-                if not abs(norm(vec) - 1.0) <= 1e-12:
+                if not abs(norm(vec) - 1.0) <= tol:
                     d = f"unit-length: |{name}| = {norm(vec)!r}"
-            if d is None and max(abs(dot(n, u)), abs(dot(n, v)), abs(dot(u, v))) > 1e-12:
+            if d is None and max(abs(dot(n, u)), abs(dot(n, v)), abs(dot(u, v))) > tol:
                 d = f"perpendicular: n.u={dot(n, u)!r} n.v={dot(n, v)!r} u.v={dot(u, v)!r}"
             req = [float(x) for x in sc["req"]]
-            if d is None and kind != "side" and not parallel(n, req):
+            ptol = max(tol * 10, 1e-11)
+            if d is None and kind != "side" and not parallel(n, req, ptol):
                 d = f"normal: n = {n} is not parallel (same sense) to the requested {req}"
-            if d is None and kind in ("letter", "normal", "top") and not parallel(cross(u, v), n):
+            if d is None and kind in ("letter", "normal", "top") and not parallel(cross(u, v), n, ptol):
                 d = f"handedness: u x v = {cross(u, v)} is not n = {n}"
             if d is None and kind == "triple" and not (parallel(u, [float(x) for x in sc["b"]["u"]]) and parallel(v, [float(x) for x in sc["b"]["v"]])):
                 d = f"axes: u = {u}, v = {v} are not the named axes"
